@@ -18,6 +18,8 @@ type BCase struct {
 	ID      any    `json:"id"`
 	T1      any    `json:"t1"`
 	T2      any    `json:"t2"`
+	T1b     []any  `json:"t1b"` // optional second bound row (empty: none)
+	T2b     []any  `json:"t2b"`
 	Tpl     string `json:"tpl"`
 	Facts   []any  `json:"facts"`
 	DstFact []any  `json:"dstfact"`
@@ -34,6 +36,8 @@ type BResult struct {
 	ID      any     `json:"id"`
 	T1      any     `json:"t1"`
 	T2      any     `json:"t2"`
+	T1b     []any   `json:"t1b"`
+	T2b     []any   `json:"t2b"`
 	Tpl     string  `json:"tpl"`
 	Facts   []any   `json:"facts"`
 	Text    string  `json:"text"`
@@ -87,13 +91,30 @@ var boundsTemplates = map[string]string{
 	"name_to_string":   "dst(Y) :- src(X), Y = fn:name:to_string(X).",
 	"struct_get_a":     "dst(Y) :- src(S), Y = fn:struct:get(S, /a).",
 	"map_of":           "dst(Y) :- src(X), Y = fn:map(\"k\", X).",
+	"any_then_src":     "dst(X) :- wide(X), src(X).",
+	"name_then_src":    "dst(X) :- names(X), src(X).",
+	"src_then_any":     "dst(X) :- src(X), wide(X).",
+	"src_then_name":    "dst(X) :- src(X), names(X).",
+	"two_srcs":         "dst(X) :- wide(X), src(X), src(X).",
 	"none":             "",
 }
 
 func boundsText(c BCase) string {
 	var sb strings.Builder
-	fmt.Fprintf(&sb, "Decl src(X) bound [%s].\n", tyText(c.T1))
-	fmt.Fprintf(&sb, "Decl dst(X) bound [%s].\n", tyText(c.T2))
+	row2 := func(t []any) string {
+		if len(t) == 0 {
+			return ""
+		}
+		return fmt.Sprintf(" bound [%s]", tyText(any(t)))
+	}
+	fmt.Fprintf(&sb, "Decl src(X) bound [%s]%s.\n", tyText(c.T1), row2(c.T1b))
+	fmt.Fprintf(&sb, "Decl dst(X) bound [%s]%s.\n", tyText(c.T2), row2(c.T2b))
+	if strings.Contains(boundsTemplates[c.Tpl], "wide(") {
+		sb.WriteString("Decl wide(X) bound [/any].\nwide(1). wide(\"a\"). wide(/foo/a). wide(/bar/b). wide(/foobar/x). wide(fn:pair(1, \"a\")). wide([1, 0]).\n")
+	}
+	if strings.Contains(boundsTemplates[c.Tpl], "names(") {
+		sb.WriteString("Decl names(X) bound [/name].\nnames(/foo/a). names(/bar/b). names(/foobar/x). names(/bar).\n")
+	}
 	if c.Tpl == "join_other" {
 		sb.WriteString("Decl other(X) bound [/any].\nother(1). other(\"a\"). other(/foo/a).\n")
 	}
@@ -144,7 +165,13 @@ func toCN(c ast.Constant) any {
 }
 
 func runBounds(c BCase) (res BResult) {
-	res = BResult{ID: c.ID, T1: c.T1, T2: c.T2, Tpl: c.Tpl, Facts: c.Facts, Stored: []BFact{}}
+	res = BResult{ID: c.ID, T1: c.T1, T2: c.T2, T1b: c.T1b, T2b: c.T2b, Tpl: c.Tpl, Facts: c.Facts, Stored: []BFact{}}
+	if res.T1b == nil {
+		res.T1b = []any{}
+	}
+	if res.T2b == nil {
+		res.T2b = []any{}
+	}
 	if res.Facts == nil {
 		res.Facts = []any{}
 	}
